@@ -525,6 +525,8 @@ impl VersionSet {
                         ));
                     }
                 }
+
+                return Err(error);
             }
         }
 
